@@ -23,7 +23,7 @@ Reply fields:
               a prefix (halmos appends _<uid>_<nn>); undeclared keys are emitted too if "emit_undeclared" is true;
               every declared p_*/halmos_* variable without a value gets 0.
     "format": "hex" | "bin" | "dec"      how model values are printed (#x.. / #b.. / (_ bvN w))
-    "core":   "all" | "none" | [ids] | k  for unsat when the query names assertions: ids to print in the unsat core
+    "core":   "all" | "none" | "empty" | [ids] | k  for unsat ("none": no core line -> parse gives None; "empty": `()` -> []) when the query names assertions: ids to print in the unsat core
               ("all" default; an int k = the first k names); "error_line": true adds the optional (error ...) line
     "stdout"/"stderr"/"returncode": override the raw output / exit code of any reply kind
     "delay_ms": sleep before replying;   "after": ["check_a/1", "check_a/2.refined"]: first wait until those queries
@@ -117,9 +117,11 @@ def _model(rule, text, abstract):
 
 def _core(rule, text):
     names = NAMED.findall(text)
+    c = rule.get("core", "all")
+    if c == "empty":
+        return "()\n"   # parses to the EMPTY list (not None)
     if not names:
         return ""
-    c = rule.get("core", "all")
     if c == "none":
         return ""
     if c == "all":
